@@ -58,20 +58,22 @@ def extra_tasks(tier):
             for i in range(8):
                 out.append({'extra': True, 'cfg': cfg, 'iso_name': iso_name, 'cases': cases[i::8]})
     # directory chains of depth 1..17 with a file and a symlink at each level, with and without set_relocated_name
+    # ... and with directory names long enough that NM / CL / PL / RE entries move into the continuation area
     for cfg in cfgs:
         for reloc in (False, True):
-            out.append({'extra': True, 'cfg': cfg, 'deep': True, 'reloc': reloc, 'maxdepth': 17 if tier == 'thorough' else 10})
+            for namelen in ((0, 190) if tier == 'quick' else (0, 100, 150, 190, 250)):
+                out.append({'extra': True, 'cfg': cfg, 'deep': True, 'reloc': reloc, 'namelen': namelen, 'maxdepth': 17 if tier == 'thorough' else 10})
     return out
 
 
-def deep_steps(cfg, depth, reloc):
+def deep_steps(cfg, depth, reloc, namelen=0):
     steps = []
     if reloc:
         steps.append([['set_relocated_name', {'name': 'MOVED', 'rr_name': 'moved_here'}]])
     p = ''
     for i in range(1, depth + 1):
         p += '/Y%d' % i
-        steps.append([['add_directory', {'iso_path': p, 'rr_name': 'y%d' % i}]])
+        steps.append([['add_directory', {'iso_path': p, 'rr_name': ('y%d' % i) if not namelen else ('y%d_' % i).ljust(namelen, 'n')}]])
         steps.append([['add_fp', {'content': 'c1', 'iso_path': p + '/F.;1', 'rr_name': 'f'}]])
         steps.append([['add_symlink', {'symlink_path': p + '/S.;1', 'rr_symlink_name': 's', 'rr_path': '../f'}]])
     return steps
@@ -82,7 +84,7 @@ def extra_run(task):
     cfg = task['cfg']
     if task.get('deep'):
         for depth in range(1, task['maxdepth'] + 1):
-            case = {'extra': True, 'cfg': cfg, 'steps': deep_steps(cfg, depth, task['reloc'])}
+            case = {'extra': True, 'cfg': cfg, 'steps': deep_steps(cfg, depth, task['reloc'], task.get('namelen', 0))}
             status, viols, info = master.evaluate(case, ORACLES, res)
             res.count('sweep_cases')
             if status in ('refused', 'crash'):
@@ -91,6 +93,25 @@ def extra_run(task):
                 break
             for v in viols:
                 res.violation(v['clause'], v['cls'], v['msg'], case)
+        # ... and taken down again from the bottom (relocated directories, their placeholders and continuation areas go)
+        top = min(task['maxdepth'], 9)
+        steps = deep_steps(cfg, top, task['reloc'], task.get('namelen', 0))
+        p = ''.join('/Y%d' % i for i in range(1, top + 1))
+        for depth in range(top, 0, -1):
+            for op in (['rm_file', {'iso_path': p + '/S.;1'}], ['rm_file', {'iso_path': p + '/F.;1'}], ['rm_directory', {'iso_path': p}]):
+                steps = steps + [[op]]
+                if op[0] != 'rm_directory':
+                    continue
+                case = {'extra': True, 'cfg': cfg, 'steps': steps}
+                status, viols, info = master.evaluate(case, ORACLES, res)
+                res.count('sweep_cases')
+                if status in ('refused', 'crash'):
+                    t, site = explore.exc_site(info['exc'])
+                    res.violation('a deep chain can be removed again', '%s@%s' % (t, site), 'removing depth %d: %s' % (depth, info['exc']), case)
+                    return res
+                for v in viols:
+                    res.violation(v['clause'], v['cls'], v['msg'], case)
+            p = p[:p.rindex('/')]
         return res
     for kind, payload in task['cases']:
         case = {'extra': True, 'cfg': cfg, 'steps': build_steps(cfg, task['iso_name'], kind, payload)}
